@@ -18,9 +18,12 @@ args = sys.argv[1:]
 jobs = 16
 tier = "quick"
 PROPS = "all"
+DIR = "seeded"
 while args and args[0].startswith("-"):
     if args[0] == "-j":
         jobs = int(args[1]); args = args[2:]
+    elif args[0] == "--dir":
+        DIR = args[1]; args = args[2:]
     elif args[0] == "--props":
         PROPS = args[1]; args = args[2:]
     elif args[0] == "--tier":
@@ -53,7 +56,7 @@ def one(d):
     return name, viol, ("ERR:" + ",".join(errs) + " " if errs else "") + " | ".join(x[:170] for x in first)
 
 
-dirs = [d for d in sorted(glob.glob("/verif/seeded/*/"))
+dirs = [d for d in sorted(glob.glob(f"/verif/{DIR}/*/"))
         if not only or any(os.path.basename(d.rstrip("/")).startswith(o) for o in only)]
 with cf.ThreadPoolExecutor(jobs) as ex:
     rows = list(ex.map(one, dirs))
@@ -65,5 +68,5 @@ for name, viol, info in rows:
 own = sum(1 for n, v, _ in rows if isinstance(v, list) and n.split("-")[0] in v)
 caught = sum(1 for n, v, _ in rows if isinstance(v, list) and v)
 print(f"{caught}/{len(rows)} caught by some check; {own}/{len(rows)} by the check of the property they target")
-if not only and PROPS == "all":
+if not only and PROPS == "all" and DIR == "seeded":
     json.dump(matrix, open("/verif/seeded/MATRIX.json", "w"), indent=1, sort_keys=True)
